@@ -16,6 +16,8 @@ LENGTH = {
     "angstrom": mp.mpf(1) / 10**10,
     "nm": mp.mpf(1) / 10**9,
     "um": mp.mpf(1) / 10**6,
+    "pm": mp.mpf(1) / 10**12,
+    "fm": mp.mpf(1) / 10**15,
 }
 ENERGY = {
     "J": mp.mpf(1),
